@@ -835,8 +835,43 @@ def r02_9(ctx: Ctx):
     ctx.floor(rid, 'call sites of the value/index setters', n, 2)
 
 
+def r02_10(ctx: Ctx):
+    """The best-interval request is a pop: the interval leaves the queue and comes back only when the renewal routine
+    re-queues it after the subdivision.  A second requester takes the maximal interval out and drops it: until the
+    next full recalculation the following trials subdivide non-maximal intervals."""
+    rid = 'R02.10'
+    ctx.rule(rid, 'who may pop: outside the container classes only the selection routine requests the interval with '
+                  'the maximal characteristic (the request removes it from the queue)')
+    roles = C.roles_of(ctx)
+    try:
+        sel = roles.selection
+    except RoleMissing as e:
+        ctx.fail(rid, f'role {e.role}', 'iOpt/', str(e), key=f'{rid}::role::{e.role}')
+        return
+    reqs = set(roles.sd_method('GetDataItemWithMaxGlobalR')) | set(roles.sd_method('GetDataItemWithMaxLocalR'))
+    sdc = ctx.ix.cls('SearchData')
+    n = 0
+    for (caller, nid), cs in sorted(ctx.pta.calls.items(), key=lambda kv: (kv[0][0], kv[0][1])):
+        if not (set(c for c in cs if isinstance(c, FuncInfo)) & reqs):
+            continue
+        f = ctx.ix.funcs.get(caller.replace('@setter', ''))
+        if f is None or not f.module.name.startswith('iOpt.') or \
+                (f.cls is not None and f.cls.is_subclass_of(sdc)):
+            continue
+        n += 1
+        node = ctx.pta.call_nodes.get((caller, nid))
+        ctx.check(roles.lift(f) is sel, rid, f.short, f.loc(node) if node is not None else f.loc(),
+                  'the best interval is requested by the selection routine',
+                  f'{f.short} requests the interval with the maximal characteristic although it is not the selection '
+                  f'routine: the request pops the interval from the queue and nothing puts it back, so the next '
+                  f'trials subdivide intervals that are not maximal', key=f'{rid}::{f.short}::pops-best')
+    ctx.floor(rid, 'best-interval requests outside the container classes', n, 1)
+
+
 def check(ctx: Ctx):
     roles = C.roles_of(ctx)
+    if C.want(ctx, 'R02.10'):
+        r02_10(ctx)
     if C.want(ctx, 'R02.9'):
         r02_9(ctx)
     if C.want(ctx, 'R02.3'):
